@@ -4,7 +4,7 @@
 From Coq Require Import ZArith Bool List Sorting.Sorted.
 Import ListNotations.
 From Verif Require Import Model.Val Gen.Src_Time Proofs.TimeP Model.Release
-  Proofs.ReleaseP1 Proofs.ReleaseP2 Proofs.ReleaseP3 Proofs.ReleaseP4 Proofs.ReleaseP5 Proofs.ReleaseP6 Proofs.ReleaseP7.
+  Proofs.ReleaseP1 Proofs.ReleaseP2 Proofs.ReleaseP3 Proofs.ReleaseP4 Proofs.ReleaseP5 Proofs.ReleaseP6 Proofs.ReleaseP7 Proofs.ReleaseP8 Proofs.ReleaseP9.
 Open Scope Z_scope.
 
 (* ---- fixed: N releases one period apart from the start *)
@@ -121,22 +121,38 @@ Theorem C19_completion_time_in_us : forall jg ct, completion_time jg = Ok ct -> 
 Proof. exact completion_time_us. Qed.
 Print Assumptions C19_completion_time_in_us.
 
-(* ---- each invocation is a fresh copy of the job graph (statement at the level of the mapping handed to
-   TaskGraph(...): Graph.__init__ = graph_of_mapping is the generic constructor; that its result has the
-   mapping's shape is checked by S-instantiate / M-iso, not proved here -> "partial" for the last step) *)
-Theorem C19_instantiation_fresh_copy_partial : forall jg f release index next us_ tg next' us' order,
+(* ---- each invocation is a fresh isomorphic copy of the job graph: for a job graph whose breadth-first traversal
+   visits every node once (a DAG built with add_job/add_child), whose children are nodes and whose jobs are identified
+   by their names, the renaming job i |-> task id (next + position of i in the traversal) is injective, lands on ids
+   that were not in use, maps the nodes onto the nodes and every children list onto the children list, in order *)
+Theorem C19_instantiation_isomorphic : forall jg f release index next us_ tg next' us' order,
   generate_task_graph jg f release index next us_ = Ok (tg, next', us') ->
   g_bfs (jg_graph jg) = Ok order -> NoDup order ->
   (forall kv, In kv (g_ch (jg_graph jg)) -> In (fst kv) order /\ forall c, In c (snd kv) -> In c order) ->
   NoDup (map fst (g_ch (jg_graph jg))) ->
+  (forall kv c, In kv (g_ch (jg_graph jg)) -> In c (snd kv) -> In c (map fst (g_ch (jg_graph jg)))) ->
   (forall i i', In i order -> In i' order -> name_of jg i = name_of jg i' -> i = i') ->
   let task_id i := next + index_of i order in
-  next' = next + Z.of_nat (length order) /\
   (forall i, In i order -> next <= task_id i < next') /\
   (forall i i', In i order -> In i' order -> task_id i = task_id i' -> i = i') /\
-  graph_of_mapping (map (fun kv => (task_id (fst kv), map task_id (snd kv))) (g_ch (jg_graph jg))) = Ok (tg_graph tg).
-Proof. exact instantiation_is_fresh_copy. Qed.
-Print Assumptions C19_instantiation_fresh_copy_partial.
+  (forall t, In t (g_nodes (tg_graph tg)) <-> exists k, In k (g_nodes (jg_graph jg)) /\ t = task_id k) /\
+  (forall k cs, In (k, cs) (g_ch (jg_graph jg)) -> g_children (tg_graph tg) (task_id k) = map task_id cs).
+Proof. exact instantiation_isomorphic. Qed.
+Print Assumptions C19_instantiation_isomorphic.
+(* Graph.__init__(mapping) builds exactly the mapping (distinct keys, children are keys) *)
+Theorem C19_graph_constructor : forall m, NoDup (map fst m) ->
+  (forall k cs c, In (k, cs) m -> In c cs -> In c (map fst m)) ->
+  exists g, graph_of_mapping m = Ok g /\ (forall k cs, In (k, cs) m -> g_children g k = cs) /\
+            (forall k, In k (g_nodes g) <-> In k (map fst m)).
+Proof. exact graph_of_mapping_shape. Qed.
+Print Assumptions C19_graph_constructor.
+
+(* ---- finding C19-periodic-loader: WorkloadLoader (with a flags object) cannot instantiate a periodic policy *)
+Theorem C19_loader_periodic_refuted : exists c ls, load_workload (lc_profiles c) (lc_graphs c) (lc_flags c) = Ok ls /\
+  (exists l, In l ls /\ p_type (jg_policy (l_jg l)) = PERIODIC) /\
+  forall us_, populate ls (mkIF (df_minb (lc_flags c)) (df_maxb (lc_flags c)) (0, 0)) (lc_completion c) [] [] us_ 0 = Err 4.
+Proof. exact loader_periodic_refuted. Qed.
+Print Assumptions C19_loader_periodic_refuted.
 
 (* ---- monitors = statements *)
 Theorem C19_mon_fixed : forall s per n obs, mon_fixed s per n obs = true <-> map us_time obs = fixed_spec s per n.
